@@ -67,6 +67,32 @@ def setup(ctx):
     W("v9.inv", b"# Sphinx inventory version 9\n")
     W("garbage.inv", good[:110] + b"\x00\xff" * 20)
     W("emptyfile.inv", b"")
+    W("boominc.md", b"included before {mvboom}`x` after\n\n## heading in the included file\n")
+    # a third-party style role and directive whose implementation raises (extensions do): the failure must stay local to the construct
+    from docutils.parsers.rst import Directive, directives, roles
+
+    def boom_role(name, rawtext, text, lineno, inliner, options=None, content=None):
+        raise ValueError("role implementation failed")
+
+    class BoomDirective(Directive):
+        has_content = True
+
+        def run(self):
+            raise RuntimeError("directive implementation failed")
+
+    class BoomAfterParse(Directive):
+        has_content = True
+
+        def run(self):
+            from docutils import nodes
+
+            node = nodes.container()
+            self.state.nested_parse(self.content, self.content_offset, node, match_titles=True)
+            raise KeyError("failed after parsing its body")
+
+    roles.register_local_role("mvboom", boom_role)
+    directives.register_directive("mvboomdir", BoomDirective)
+    directives.register_directive("mvboomafter", BoomAfterParse)
     REACH = mon.start_reach(ctx, cap=None)
 
 
@@ -225,7 +251,43 @@ def make_text(R):
     return "long", "\n".join(lines) + "\n" + R.choice(["x" * 10000, "> " * 300 + "deep", "- " * 200 + "deep", "*" * 3000, "[" * 2000, "`" * 4001, "<" * 3000, "\\" * 5000, ("|a" * 400 + "|\n") + ("|-" * 400 + "|\n"), "{{" * 1500, "$" * 3001])
 
 
+ISOLATION = [
+    ["```{note}", "before {mvboom}`x` after", "```"], ["> ```{note}", "> {mvboom}`x`", "> ```"], ["````{tip}", "```{note}", "{mvboom}`x`", "```", "````"], ["```{mvboomdir}", "body", "```"],
+    ["````{mvboomafter}", "## heading inside", "", "```{note}", "x", "```", "````"], ["```{include} boominc.md", "```"], ["- item", "", "  ```{note}", "  {mvboom}`x`", "  ```"], [":::{note}", "{mvboom}`x`", ":::"],
+    ["```{figure} i.png", "caption {mvboom}`x`", "```"], ["```{list-table}", "* - {mvboom}`x`", "```"], ["```{admonition} Title", ":class: c", "", "{mvboom}`x`", "```"],
+]
+
+
+def eval_isolation(ctx, case):
+    """A role / directive implementation that raises INSIDE a directive is reported there; the rest of the document is rendered as if nothing had happened."""
+    from docutils import nodes
+
+    mid = ISOLATION[case["shape"] % len(ISOLATION)]
+    text = "\n".join(["# First", "", "para one", ""] + mid + ["", "## Second ISOSECOND", "", "ISOENDMARK paragraph", "", "# Third ISOTHIRD", "", "last ISOLAST"]) + "\n"
+    r = run_docutils(ctx, {**case, "text": text}, text, {"myst_enable_extensions": ["colon_fence"]}, src=os.path.join(TMP, "iso.md"))
+    if r is None:
+        return False  # the crash itself was recorded by run_docutils (a role failing outside any directive is the extension's own crash)
+    doc, w = r
+    ctx.count("isolation_cases")
+    secs = {s[0].astext().split()[-1]: s for s in doc.findall(nodes.section) if len(s) and isinstance(s[0], nodes.title)}
+    txt = doc.astext()
+    prob = None
+    if "ISOENDMARK" not in txt or "ISOLAST" not in txt:
+        prob = "the text after the failing construct is missing from the document"
+    elif "ISOSECOND" not in secs or "ISOTHIRD" not in secs:
+        prob = f"the headings after the failing construct did not become sections (sections: {sorted(secs)})"
+    elif not isinstance(secs["ISOTHIRD"].parent, nodes.document) or secs["ISOSECOND"].parent is not next(iter(doc.findall(nodes.section))):
+        prob = "the sections after the failing construct are attached to the wrong parent"
+    if prob:
+        ctx.violation("isolation:rest-of-document-damaged-after-failing-directive", prob, case, {"text": text, "doctree": doc.pformat()[:2500], "warnings": w[-800:]})
+    if not re.search(r"failed|ERROR|error", w):
+        ctx.violation("isolation:failure-not-reported", "the failing role / directive left no message in the warning stream", case, {"text": text, "warnings": w[-800:]})
+    return True
+
+
 def eval_doc(ctx, case):
+    if case.get("sub") == "isolation":
+        return eval_isolation(ctx, case)
     text, cfg = case["text"], case.get("cfg", {})
     kw = G.cfg_to_overrides(cfg)
     kw.setdefault("myst_inventories", {"inv": ["https://e.org", os.path.join(TMP, "good.inv")]}) if case.get("inv") else None
@@ -455,6 +517,11 @@ def run_shard(ctx):
         ctx.case(("rule-disabled", nm), True)
         ctx.count("rules_disabled_one_by_one")
     ctx.subrun("each_rule_disabled", exhaustive=True, rules=len(rule_names) if ctx.shard == 0 else 0)
+    for k in range(len(ISOLATION)):
+        if k % ctx.nshards == ctx.shard % len(ISOLATION) or ctx.nshards <= k:
+            case = {"kind": "doc", "sub": "isolation", "shape": k, "text": ""}
+            eval_case(ctx, case)
+            ctx.case(("isolation", k), True)
     nf = 250 if quick else 12000
     for i in range(nf):
         case = rand_fault_case(R)
